@@ -57,8 +57,15 @@ def run_case(c, d):
         roots.append(r)
     importlib.invalidate_caches()
     out = {'lookup': {}, 'pathfinder': {}, 'roundtrip': {}, 'walk': {}}
+    out['spelling'] = {}
     for name in c['names']:
         p = us.modname_to_modpath(name, sys_path=roots)
+        # the same search path written the way people write PYTHONPATH entries: with a trailing separator, with a `./` inside
+        for how, alt in (('trailing-slash', [r + os.sep for r in roots]), ('dot-segment', [os.path.join(os.path.dirname(r), '.', os.path.basename(r)) for r in roots])):
+            q = us.modname_to_modpath(name, sys_path=alt)
+            same = (p is None and q is None) or (p is not None and q is not None and os.path.realpath(p) == os.path.realpath(q))
+            if not same:
+                out['spelling'][name] = [how, None if p is None else os.path.relpath(p, d), None if q is None else os.path.relpath(q, d)]
         if p is None:
             out['lookup'][name] = None
         else:
